@@ -518,6 +518,34 @@ def rule_syntax_blind(ck: Check, repo: Repo, folder: Folder, styles: list[dict],
                     " syntax of the line", repo.loc(repo.module_assign(EX, "_END_PATTERN")))
 
 
+# ------------------------------------------------------------------ R10
+def rule_window_cut(ck: Check, repo: Repo, rid: str = "R10") -> None:
+    """'A tag is recognised with exactly the value its author wrote.'  The window is a byte count, not a line count: the
+    line that straddles byte 4096 reaches the tag search cut short, and a tag on it is read with the cut value
+    (`GPL-3.0-or-` for `GPL-3.0-or-later`).  Decided: whether anything between the sized read and the tag search treats
+    the last, possibly incomplete, line of a full window differently from the others."""
+    r = ck.rule(rid, "a line cut by the 4 KiB window is not interpreted as if it were complete")
+    qs = [f"{EX}.decoded_text_from_binary", f"{EX}.reuse_info_of_file"]
+    handles = []
+    for q in qs:
+        fn = repo.func(q)
+        ck.analysed_fn(q)
+        for c in ast.walk(fn):
+            if isinstance(c, ast.Call) and isinstance(c.func, ast.Attribute) and c.func.attr in ("rfind", "rindex", "rpartition", "rsplit", "readline", "readlines"):
+                handles.append(f"{q.split('.')[-1]}: {ast.unparse(c)[:50]}")
+    sized = any(isinstance(c, ast.Call) and isinstance(c.func, ast.Attribute) and c.func.attr == "read" and c.args
+                for c in ast.walk(repo.func(qs[0])))
+    r.instance("window-tail", {"sized_read": sized, "last_line_handling": handles})
+    if not sized:
+        ck.assumptions.append(f"C02-{rid}: the window is no longer a sized read; the cut-line clause is not decided")
+        return
+    if not handles:
+        r.violation(qs[1], "the last line of a full window is searched like a complete line",
+                    "a header whose `SPDX-License-Identifier: GPL-3.0-or-later` line straddles byte 4096 is read as `GPL-3.0-or-`: lint"
+                    " reports a bad and missing licence that occurs nowhere in the file (and a copyright notice cut the same way)",
+                    repo.loc(repo.func(qs[1])))
+
+
 def run(ck: Check, repo: Repo) -> None:
     ck.explanation = (
         "Reader tables against writer tables: every multi-line terminator of the 29 folded comment styles and the"
@@ -544,6 +572,7 @@ def run(ck: Check, repo: Repo) -> None:
     from . import c07
     c07.rule_tables_roundtrip(ck, repo, folder, "R8")
     rule_syntax_blind(ck, repo, folder, styles)
+    rule_window_cut(ck, repo)
     # order hazards met while folding (reported under C14, noted here)
     for h in folder.hazards:
         if "extract" in h.context:
